@@ -563,8 +563,9 @@ def classify(text, timeout=3):
     except _T:
         return ('hang', 'no answer within %d s' % timeout)
     except RINGSyntaxError as e:
-        nlines = text.count('\n') + 1
-        if not (1 <= e.lineno <= nlines and 1 <= e.colno <= len(text) + 2):
+        lines_ = text.split('\n')
+        # inside the text: a line of the text, and a column of THAT line (one past its end = "at end of line / end of input")
+        if not (1 <= e.lineno <= len(lines_) and 1 <= e.colno <= len(lines_[e.lineno - 1]) + 1):
             return ('badpos', 'line %s col %s' % (e.lineno, e.colno))
         # the error object is the answer of Read: it has to be printable both ways (a traceback uses str(), a logger / the prompt repr())
         for how in (str, repr):
@@ -612,6 +613,17 @@ def standin_read(tier, seed):
         if len(s) > 3:
             k = rnd.randrange(len(s))
             texts.add(s[:k])
+        # layout INSIDE a keyword of several words (a line break, a tab, two blanks), with a syntax error further on: whether or not such a keyword
+        # is accepted, the position reported for the later error has to lie inside the text
+        for _ in range(2):
+            cand = [j for j, t in enumerate(toks) if ' ' in t]
+            if cand:
+                j = rnd.choice(cand)
+                w = toks[j].replace(' ', rnd.choice(['\n', '\n\n ', '\t', '  ', ' \n']), 1)
+                tail = rnd.choice([' }} !!', ' garbage', ' {', ''])
+                texts.add(' '.join(toks[:j] + [w] + toks[j + 1:]) + tail)
+                cut = rnd.randrange(j + 1, len(toks) + 1)
+                texts.add(' '.join(toks[:j] + [w] + toks[j + 1:cut]) + ' ??')
     alphabet = 'abcCHON {}()!,.:+-*?$&0123456789\n\t_labeledfragmentbondtosingle\u00b2\u00e9\u4e2d'
     for i in range(nrand):
         texts.add(''.join(rnd.choice(alphabet) for _ in range(rnd.randint(0, 40))))
